@@ -58,6 +58,20 @@ def cwStepTNW (n t : R) (x acc : List R) : List R :=
 def cwStep (tnw : Bool) (n t : R) (x acc : List R) : List R :=
   if tnw then cwStepTNW n t x acc else cwStepQSW n t x acc
 
+/-- numpy broadcasting of a scalar over a 3-vector, in the three forms cwhelper.py uses: `v * s`, `s * v`, `v / s` -/
+def vmuls (v : List R) (s : R) : List R := v.map (fun c => c * s)
+def smulv (s : R) (v : List R) : List R := v.map (fun c => s * c)
+def vdivs (v : List R) (s : R) : List R := v.map (fun c => c / s)
+
+/-- `np.sign` -/
+def signR (x : R) : R := if x > 0 then 1 else if x < 0 then -1 else 0
+
+/-- `_mat3` / `_mat6` of a propagator in the default (QSW) orientation -/
+def id3 : List (List R) := [[1, 0, 0], [0, 1, 0], [0, 0, 1]]
+def id6 : List (List R) :=
+  [[1, 0, 0, 0, 0, 0], [0, 1, 0, 0, 0, 0], [0, 0, 1, 0, 0, 0],
+   [0, 0, 0, 1, 0, 0], [0, 0, 0, 0, 1, 0], [0, 0, 0, 0, 0, 1]]
+
 /-- maneuvers expressed in the frame of the orbit (`frame=None`) -/
 inductive Man where
   | imp (tm : R) (dv : List R)
@@ -87,6 +101,76 @@ def cwPropagate (tnw : Bool) (n : R) (mans : List Man) (t : R) (t0 : R) (x0 : Li
         if ts ≤ t ∧ t < te then cwStep tnw n (t - s) x1 a
         else go rest te (cwStep tnw n (te - s) x1 a)
       else go rest tc x
+  go mans t0 x0
+
+/-! ## The reference solution (specification), independent of the order of the list
+
+`hillSol` is the closed form (variation of constants) of the solution of Hill's equations that passes through `x0` at
+`t0`, forced by the SUM of the thrusts active at each instant (a burn is active on `[ts, te)`) and jumping by `dv` at
+every impulse date (right-continuous: the state AT `tm` contains the jump).  It is a sum of one term per maneuver — so
+it does not depend on the order of the list and superposes by construction — and it is defined for dates before `t0`
+as well (the maneuvers between `t` and `t0` are undone).  Props/C16Seq.lean proves that it is a solution
+(`state_solves_hill_piecewise_thrust`) and when `cwPropagate` equals it. -/
+
+def zero6 : List R := [0, 0, 0, 0, 0, 0]
+
+/-- the 6-vector `(0, dv)` -/
+def kick (dv : List R) : List R := 0 :: 0 :: 0 :: dv
+
+def vneg (v : List R) : List R := v.map (fun c => -c)
+
+/-- contribution of one maneuver to the state at date `t` of the solution through `(t0, x0)` -/
+def hillTerm (n t t0 : R) : Man → List R
+  | Man.imp tm dv =>
+    if t0 < tm ∧ tm ≤ t then cwStepQSW n (t - tm) (kick dv) zero3
+    else if t < tm ∧ tm ≤ t0 then cwStepQSW n (t - tm) (kick (vneg dv)) zero3
+    else zero6
+  | Man.cont ts te a =>
+    if t0 ≤ t then
+      if te > t0 ∧ t ≥ ts then
+        let s := if ts ≥ t0 then ts else t0
+        if t < te then cwStepQSW n (t - s) zero6 a
+        else cwStepQSW n (t - te) (cwStepQSW n (te - s) zero6 a) zero3
+      else zero6
+    else
+      if ts < t0 ∧ t < te then
+        let b := if te ≤ t0 then te else t0
+        if ts ≤ t then cwStepQSW n (t - b) zero6 a
+        else cwStepQSW n (t - ts) (cwStepQSW n (ts - b) zero6 a) zero3
+      else zero6
+
+def hillSol (n : R) (mans : List Man) (t t0 : R) (x0 : List R) : List R :=
+  mans.foldr (fun m acc => vadd (hillTerm n t t0 m) acc) (cwStepQSW n (t - t0) x0 zero3)
+
+/-- sum of the thrust accelerations of the burns active at date `t` (`ts ≤ t < te`) -/
+def thrustAt (t : R) : List Man → List R
+  | [] => zero3
+  | Man.imp _ _ :: rest => thrustAt t rest
+  | Man.cont ts te a :: rest => if ts ≤ t ∧ t < te then vadd a (thrustAt t rest) else thrustAt t rest
+
+/-- The sequencing of proposed_fixes/C16-maneuver-superposition.diff: no early return from inside a burn (the thrust
+leg stops at `min te t` and the loop goes on), and a propagation to a date before `t0` undoes the maneuvers lying
+between the two dates.  `cwPropagateFixed_eq_hillSol` (Props/C16Seq.lean) proves it equal to `hillSol` for EVERY list. -/
+def cwPropagateFixed (n : R) (mans : List Man) (t : R) (t0 : R) (x0 : List R) : List R :=
+  let rec go : List Man → R → List R → List R
+    | [], tc, x => cwStepQSW n (t - tc) x zero3
+    | Man.imp tm dv :: rest, tc, x =>
+      if t0 < tm ∧ tm ≤ t then go rest tm (addDv (cwStepQSW n (tm - tc) x zero3) dv)
+      else if t < tm ∧ tm ≤ t0 then go rest tm (addDv (cwStepQSW n (tm - tc) x zero3) (vneg dv))
+      else go rest tc x
+    | Man.cont ts te a :: rest, tc, x =>
+      if t0 ≤ t then
+        if te > t0 ∧ t ≥ ts then
+          let s := if ts ≥ t0 then ts else t0
+          let e := if t < te then t else te
+          go rest e (cwStepQSW n (e - s) (cwStepQSW n (s - tc) x zero3) a)
+        else go rest tc x
+      else
+        if ts < t0 ∧ t < te then
+          let b := if te ≤ t0 then te else t0
+          let e := if ts ≤ t then t else ts
+          go rest e (cwStepQSW n (e - b) (cwStepQSW n (b - tc) x zero3) a)
+        else go rest tc x
   go mans t0 x0
 
 /-- right-hand side of Hill's equations with a constant thrust acceleration -/
